@@ -1,4 +1,5 @@
 import Syzgy.Model.Dump
+import Syzgy.Lemmas.DumpColl
 /-!
 # C20 — export followed by import reproduces the collection
 -/
@@ -51,6 +52,24 @@ theorem roundtrip_requantize (deq : Nat → F) (q : F → Nat) (fmt : F → T) (
     refine ⟨v :: vs, ?_, by simp [hq, hqs]⟩
     simp only [List.map_cons, List.mapM_cons, hv, hvs]
     rfl
+
+/-- **on collections**: `ExportJSON` walks `collRecs c` (every listed id with the document `getDocument` returns); when
+    import reads those records back unchanged (`roundtrip`), adding them one by one to a newly created collection with the
+    same options yields a collection that represents the same abstract store: same ids, byte-identical metadata,
+    identical stored codes, for every quantization -/
+theorem import_of_export_is_the_same_store (c : Coll) (segs : List Seg) (docs : DocStore) (h : CRep2 c segs docs)
+    (name : Bytes) (hm : c.cfg.metric = 0 ∨ c.cfg.metric = 1) (hlen : (encodeOpts name c.cfg).length < 1000000000) :
+    ∃ c0, newCollection none name c.cfg .createIfNotExists = .ok c0 ∧ c0.cfg = c.cfg ∧
+      (DocFitsAll2 c0 (fun _ => none) (importOps (collRecs c)) →
+        ∃ segs', CRep2 ((importOps (collRecs c)).foldl applyDocOp c0) segs' docs) :=
+  import_export_collection c segs docs h name hm hlen
+
+/-- … and the records read back are the records exported, under the hypotheses of `roundtrip` -/
+theorem exported_records_read_back (deq : Nat → F) (q : F → Nat) (fmt : F → T) (parse : T → Option F) (c : Coll)
+    (hfmt : ∀ d ∈ collRecs c, ∀ k ∈ d.codes, parse (fmt (deq k)) = some (deq k))
+    (hidem : ∀ d ∈ collRecs c, ∀ k ∈ d.codes, q (deq k) = k) :
+    importRecs q parse (exportRecs deq fmt (collRecs c)) = some (collRecs c) :=
+  roundtrip deq q fmt parse (collRecs c) hfmt hidem
 
 /-- non-vacuity: identity printing over `Nat` -/
 example : importRecs (fun v : Nat => v) (fun t : Nat => some t) (exportRecs (fun k => k) (fun v => v)
